@@ -433,8 +433,8 @@ pub fn check(scn: &Scenario, stats: &mut Stats) -> Vec<Violation> {
         };
         out.push(viol(
             "same-diagnostics-as-pasted",
-            format!("differs-from-pasted:{kind}:{}{}", if failed.is_empty() { "" } else { "after-failed-include:" }, kinds.join("+")),
-            format!("split has {:?} which the pasted file lacks; pasted has {:?} which the split lacks", only_got.iter().take(3).collect::<Vec<_>>(), only_want.iter().take(3).collect::<Vec<_>>()),
+            format!("differs-from-pasted:{kind}{}", if failed.is_empty() { "" } else { ":after-failed-include" }),
+            format!("kinds involved: {}; split has {:?} which the pasted file lacks; pasted has {:?} which the split lacks", kinds.join("+"), only_got.iter().take(3).collect::<Vec<_>>(), only_want.iter().take(3).collect::<Vec<_>>()),
             &f,
         ));
         return out;
@@ -646,8 +646,8 @@ fn check_t2(scn: &Scenario, stats: &mut Stats) -> Vec<Violation> {
         };
         out.push(viol(
             "same-diagnostics-as-pasted",
-            format!("cli:differs-from-pasted:{}{}", if failed.is_empty() { "" } else { "after-failed-include:" }, kinds.join("+")),
-            format!("split has {:?} which the pasted file lacks; pasted has {:?} which the split lacks", only_got.iter().take(3).collect::<Vec<_>>(), only_want.iter().take(3).collect::<Vec<_>>()),
+            format!("cli:differs-from-pasted{}", if failed.is_empty() { "" } else { ":after-failed-include" }),
+            format!("kinds involved: {}; split has {:?} which the pasted file lacks; pasted has {:?} which the split lacks", kinds.join("+"), only_got.iter().take(3).collect::<Vec<_>>(), only_want.iter().take(3).collect::<Vec<_>>()),
             &f,
         ));
         return out;
